@@ -146,7 +146,11 @@ def gen_m3_cases(ctx: Check, n: int) -> list[dict]:
     cases = []
     while len(cases) < n:
         x = rng.random()
-        if x < 0.4:
+        if x < 0.1:
+            from harness.macro_gen import gen_redefined_between_calls
+            pcode = pcode_of(gen_redefined_between_calls(rng))
+            ctx.count("m3:redefined-between-runs-of-one-call-line")
+        elif x < 0.4:
             pcode = pcode_of(gen_acyclic(rng))
             ctx.count("m3:acyclic-macro-method")
         elif x < 0.55:
@@ -526,6 +530,33 @@ def oracle_overlap(case: dict) -> Failure | None:
         run.close()
 
 
+def oracle_alarm_redefine(case: dict) -> Failure | None:
+    """A call runs the most recently defined body also when the same Call macro line runs again and again (Alarm
+    body): once the main flow has re-defined B (Mark `redefined` is set), at most one invocation that was already
+    inside the call may still finish on the old body; every later one runs the new body."""
+    from harness.engine_run import EngineRun
+    from harness.macro_gen import pcode_of
+    items = case["items"]
+    run = EngineRun(pcode_of(items))
+    try:
+        snap = None
+        for _ in range(case["ticks"]):
+            snap = run.tick()
+            if snap["tags"].get("Method Status") == "Error":
+                return None
+        got = _marks(snap)
+        if "redefined" not in got:
+            return None
+        after = got[got.index("redefined") + 1:]
+        if after.count("old1") > 1 or (after.count("x") >= 4 and "new1" not in after):
+            return Failure("call-runs-stale-definition:alarm-body", case,
+                           f"after the re-definition of B (Mark 'redefined') the call in the Alarm body still ran the old "
+                           f"body: marks after it {after}")
+        return None
+    finally:
+        run.close()
+
+
 def oracle(case: dict) -> Failure | None:
     k = case["kind"]
     if k == "expand":
@@ -536,6 +567,8 @@ def oracle(case: dict) -> Failure | None:
         return oracle_edit(case)
     if k == "overlap":
         return oracle_overlap(case)
+    if k == "alarm-redefine":
+        return oracle_alarm_redefine(case)
     raise ValueError(k)
 
 
@@ -549,6 +582,14 @@ def gen_oracle_cases(ctx: Check, n_expand: int, n_rec: int, n_edit: int) -> list
         ctx.count("oracle:expand:" + (e["stop"] or "runs-to-end"))
         ctx.count("oracle:expand:calls", e["calls"])
         cases.append({"kind": "expand", "items": items})
+    from harness.macro_gen import gen_alarm_redefine, gen_redefined_between_calls
+    for _ in range(max(8, n_expand // 4)):
+        items = gen_redefined_between_calls(rng)
+        ctx.count("oracle:expand:redefined-between-runs-of-one-call-line")
+        cases.append({"kind": "expand", "items": items})
+    for _ in range(max(4, n_expand // 10)):
+        ctx.count("oracle:alarm-redefine")
+        cases.append({"kind": "alarm-redefine", "items": gen_alarm_redefine(rng), "ticks": 110})
     for i in range(n_rec):
         items, shape = gen_recursive(rng, SHAPES[i % len(SHAPES)])
         ctx.count("oracle:recursive:" + shape)
@@ -634,7 +675,7 @@ def run(ctx: Check) -> int:
     # (3) oracle on the real engine
     corpus = []
     for c in load_corpus("C41"):
-        if c.get("kind") in ("expand", "recursive", "edit", "overlap"):
+        if c.get("kind") in ("expand", "recursive", "edit", "overlap", "alarm-redefine"):
             corpus.append(dict(c, items=[_tup(x) for x in c["items"]]))
     cases = corpus + gen_oracle_cases(ctx, ctx.n(60, 6000), ctx.n(32, 640), ctx.n(150, 3000))
     ctx.monitor(cases, oracle, impl_timeout=120)
@@ -647,7 +688,7 @@ def run(ctx: Check) -> int:
 
 def replay(obj) -> int:
     c = obj.get("case", {})
-    if isinstance(c, dict) and c.get("kind") in ("expand", "recursive", "edit", "overlap"):
+    if isinstance(c, dict) and c.get("kind") in ("expand", "recursive", "edit", "overlap", "alarm-redefine"):
         from harness.macro_gen import pcode_of
         c["items"] = [_tup(x) for x in c["items"]]
         print(pcode_of(c["items"]))
